@@ -240,6 +240,10 @@ func runC04(w *World, r *Report) {
 		})
 	}
 
+	// ---- role-uniform (generalises in-out-wiring to every struct and function of the module)
+	r.Rule("C04.role-uniform", "within one function, same-role fields (input* / output*, pre* / post*) of one struct are filled from sources of one role; a lone cross-role assignment is a copy within one object", 20)
+	ruleRoleUniform(w, r, "C04.role-uniform", "compose", "schema", "internal", "flow", "callbacks", "components", "utils")
+
 	// ---- in-out-wiring
 	r.Rule("C04.in-out-wiring", "helper derivations copy same-role fields from the correct side", 4)
 	role := func(name string) (side, rl string) {
